@@ -288,6 +288,9 @@ class PBES2HSAlgModel(JWEKeyEncryption):
         assert "p2c" in headers
         p2s = urlsafe_b64decode(to_bytes(headers["p2s"]))
         p2c = headers["p2c"]
+        if p2c < 1 or p2c > 0x7FFFFFFF:
+            # outside the range of PBKDF2 iteration counts
+            raise DecodeError('Invalid "p2c" value')
 
         key = recipient.recipient_key
         assert key is not None
